@@ -516,6 +516,37 @@ macro_rules! c01_type {
                         }
                     }
                 });
+                // mul_add on witnesses of fusedness: the exact product a*b lies exactly half-way between two
+                // neighbouring values and the addend is far below one ulp of it, so only a single
+                // rounding of a*b + c (not a rounded product, nor a product carried in a wider format
+                // that cannot hold the addend) gives the right neighbour
+                let mbits = S::MANTISSA_DIGITS as u64; // 24 / 53
+                let cs: [S; 8] = [S::EPSILON * S::EPSILON * S::EPSILON, -(S::EPSILON * S::EPSILON * S::EPSILON), S::MIN_POSITIVE, -S::MIN_POSITIVE, S::EPSILON * S::EPSILON * S::EPSILON * S::EPSILON * S::EPSILON, -(S::EPSILON * S::EPSILON * S::EPSILON * S::EPSILON * S::EPSILON), 0.0, S::EPSILON * (0.25 as S)];
+                rep.sweep(&format!("{TN}/ternary/mul_add half-way products x tiny addends"), (mbits - 1) * 8 * 6 * N as u64, |idx, acc| {
+                    let d = digits(idx, [mbits - 1, 8, 6, N as u64]);
+                    let k = d[0] as i32 + 1;
+                    let two: S = 2.0;
+                    let scale = [1.0 as S, -1.0, 4096.0, 1.0 / 1024.0, 3.0, -0.75][d[2]];
+                    // (1 + 2^-k)(1 + 2^(k-M)) = 1 + 2^-k + 2^(k-M) + 2^-M: the last term is half an ulp
+                    let x = (1.0 as S + two.powi(-k)) * if d[2] < 4 { scale } else { 1.0 };
+                    let y = 1.0 as S + two.powi(k - mbits as i32);
+                    let z = cs[d[1]] * if d[2] < 4 { scale.abs() } else { scale };
+                    let mut a = [1.5 as S; N];
+                    let mut b = [-2.25 as S; N];
+                    let mut c = [0.125 as S; N];
+                    a[d[3]] = x; b[d[3]] = y; c[d[3]] = z;
+                    let (va, vb, vc) = (<T as harness::flat::Flat>::build(&a), <T as harness::flat::Flat>::build(&b), <T as harness::flat::Flat>::build(&c));
+                    let forms = [("mul_add", va.mul_add(vb, vc).to_array()), ("mul_add(swapped factors)", vb.mul_add(va, vc).to_array())];
+                    for (site, g) in forms {
+                        let mut e = [0.0 as S; N];
+                        let mut h = 0u64;
+                        for i in 0..N { e[i] = S::mul_add(a[i], b[i], c[i]); h = hmix(h, g[i].to_bits() as u64); }
+                        acc.eval(true, h);
+                        if !(0..N).all(|i| ieee(g[i], e[i])) {
+                            acc.fail(&format!("{}::{}", TN, site), format!("a={} b={} c={} got={} want={}", fmt_bits(&a), fmt_bits(&b), fmt_bits(&c), fmt_bits(&g), fmt_bits(&e)));
+                        }
+                    }
+                });
             }
         }
     };
